@@ -129,7 +129,7 @@ CLAIMS = {
                  "siblings count under the same link tests over the same role "
                  "domains; role-suffixed locals are computed from the matching node "
                  "list; sub-block helpers return copies; edge-loop fills mirror "
-                 "independently; virtual calls survive the coupled overrides. Also: tested links have the same orientation in compiled and sparse siblings, and results built through igraph's order-normalising subgraph() are mapped back to the caller's node order (X7); a loop over igraph edges stores the reversed orientation only on paths the directed flag excludes (X8)."),
+                 "independently; virtual calls survive the coupled overrides. Also: tested links have the same orientation in compiled and sparse siblings, and results built through igraph's order-normalising subgraph() are mapped back to the caller's node order (X7); a loop over igraph edges stores the reversed orientation only on paths the directed flag excludes (X8). X9: a scan latch of a cross kernel is re-initialised for every node of the outer loop."),
         "note": "Does NOT decide equality with sub-block definitions or limits.",
         "technique": "sibling guard-set agreement (Cython vs Python loop IR), role dataflow, override-signature check",
     },
